@@ -233,7 +233,7 @@ def platform_from_name(
         if (
             # If the platform_name_re contains special regex chars
             re.escape(platform_name_re) != platform_name_re
-            and re.match(platform_name_re, 'localhost')
+            and re.fullmatch(platform_name_re, 'localhost')
         ):
             raise PlatformLookupError(
                 'The "localhost" platform cannot be defined using a '
